@@ -58,8 +58,10 @@ def resample_orientations(
         cumfrac = frac_ascending.cumsum()
         # Force cumfrac[-1] to be equal to sum(frac_ascending) i.e. 1.
         cumfrac[-1] = 1.0
-        # Number of new samples with volume less than each cumulative fraction.
-        count_less = np.searchsorted(cumfrac, rng.random(n_samples))
+        # Index of the first cumulative fraction that exceeds each uniform variate.
+        # Variates lie in [0, 1), so side="right" is required to never draw a
+        # zero-volume grain when the variate is exactly 0 (or equal to a cumfrac).
+        count_less = np.searchsorted(cumfrac, rng.random(n_samples), side="right")
         out_orientations[i, ...] = orient[sort_ascending][count_less]
         out_fractions[i, ...] = frac_ascending[count_less]
     return out_orientations, out_fractions
